@@ -1643,9 +1643,16 @@ fn gen_c16(g: &mut G) {
         for round in 0..2 {
             g.new_obj("a", f, &kind, dir, 0, iv.clone(), json!({"rand":3}), "inner");
             if bytelevel { g.sched_bytes("a", n1, bs, Some(false), false) } else { g.sched_blocks("a", n1, w, Some(false), false) }
-            g.op("drop", "a");
             let o = if round == 0 { "b" } else { "b2" };
-            g.new_obj(o, f, &kind, dir, 1, iv.clone(), json!({"rand":0}), "inner");
+            if round == 0 {
+                // built IN PLACE: `*slot = Mode::new(..)` drops the first instance where it stands and the second
+                // one lives at exactly its address (heap boxes freed and allocated again do not reliably do that)
+                g.cmds.push(json!({"op":"new","o":o,"fac":g.name(f),"kind":kind,"dir":dir,"key":1,"iv":iv.clone(),
+                    "via":"inner","src":json!({"rand":0}),"into":"a"}));
+            } else {
+                g.op("drop", "a");
+                g.new_obj(o, f, &kind, dir, 1, iv.clone(), json!({"rand":0}), "inner");
+            }
             if bytelevel { g.sched_bytes(o, n2, bs, Some(false), false) } else { g.sched_blocks(o, n2, w, Some(false), true) }
             g.op("drop", o);
         }
